@@ -785,6 +785,24 @@ let c13_sublife t =
   done;
   String.concat " # " (List.rev !outs)
 
+
+(* ---------- C19: backup / restore ---------- *)
+(* backupm <nsites> {ord site} <nclock> {ord} <seq> <keep|-1>  -> bak sites/clock ; dst sites/clock *)
+let c19_backupm t =
+  let ns = ti t in let sites = tlist t ns (fun t -> let o = tz t in let s = tz t in (o, s)) in
+  let nc = ti t in let clock = tlist t nc (fun t -> tz t) in
+  let seq = tz t in
+  let keep = (let k = tz t in if int_of_z k < 0 then None else Some k) in
+  let d = { b_sites = sites; b_clock = List.mapi (fun i o -> (z_of_small i, o)) clock; b_members = [z_of_small 1]; b_subs = [] } in
+  let fmt (x : bdb) = "sites=" ^ join "," (fun (o, s) -> sz o ^ ":" ^ sz s) (List.sort compare x.b_sites) ^
+                      " clock=" ^ join "," (fun (_, o) -> sz o) x.b_clock ^ " members=" ^ string_of_int (List.length x.b_members) in
+  match backup seq d with
+  | None -> "backup-fails"
+  | Some bak ->
+    let dst = restore keep bak in
+    let same = List.for_all2 (fun r r' -> author d r = author dst r') d.b_clock dst.b_clock in
+    "bak " ^ fmt bak ^ " # dst " ^ fmt dst ^ " authors_same=" ^ sb same
+
 (* ---------- dispatch ---------- *)
 let handlers : (string * (toks -> string)) list ref = ref [
   "chunks", c08_chunks;
@@ -799,6 +817,7 @@ let handlers : (string * (toks -> string)) list ref = ref [
   "chk_members", c18_chk;
   "crdtm", c01_crdtm;
   "ivm", c11_ivm;
+  "backupm", c19_backupm;
   "sublife", c13_sublife;
   "catchup", c12_catchup;
   "chk_stream", c12_chk;
